@@ -267,7 +267,8 @@ class Environment:
                 until = Event(self)
                 until._ok = True
                 until._value = None
-                self.schedule(until, URGENT, at - self.now)
+                # at the absolute instant: now + (at - now) is not always at
+                heappush(self._queue, (at, URGENT, next(self._eid), until))
 
             elif until.callbacks is None:
                 # Until event has already been processed.
